@@ -91,11 +91,32 @@ type decoded struct {
 	d    []byte
 }
 
+// the last decoded values, kept as a caller keeps them, with what they held when they were returned
+type keptDecoded struct {
+	s    *bscript.BIP276
+	data []byte
+	text string
+}
+
+var keptDec []keptDecoded
+
 func decode(text string) (r decoded) {
 	pan, msg := common.Safely(func() {
 		s, err := bscript.DecodeBIP276(text)
+		// what earlier calls returned is still what it was
+		for _, k := range keptDec {
+			if !bytes.Equal(k.s.Data, k.data) {
+				violate("DecodeBIP276/earlier-result-changed-by-a-later-call", fmt.Sprintf("the data decoded from %q now reads %x after decoding %q", k.text, k.s.Data, text), fmt.Sprintf("%q", k.text))
+				keptDec = nil
+				break
+			}
+		}
 		if err == nil && s != nil {
-			r = decoded{true, s.Prefix, s.Version, s.Network, s.Data}
+			keptDec = append(keptDec, keptDecoded{s, append([]byte{}, s.Data...), text})
+			if len(keptDec) > 5 {
+				keptDec = keptDec[1:]
+			}
+			r = decoded{true, s.Prefix, s.Version, s.Network, append([]byte{}, s.Data...)}
 		} else if err == nil {
 			violate("DecodeBIP276/nil-without-error", "", fmt.Sprintf("%q", text))
 		}
